@@ -204,6 +204,83 @@ func pipeWorker(tb []byte, progress func()) []byte {
 	return b
 }
 
+// runAliasProbe: replies are produced for one connection while other connections' handlers run
+// concurrently, so the bytes of a reply must stay intact after *later* replies have been built.
+// Every reply of a batch of reads (pairs of keys holding different payloads of equal length) is
+// kept as the raw slice returned by ToBytes and only decoded after the whole batch has run.
+func runAliasProbe(rep *ev.Report) (int, string) {
+	h.Boot(shardNum, 1)
+	rt.CurMode = rt.Controlled
+	rt.NewWorld()
+	mgr := h.NewManager()
+	bg := context.Background()
+	ks := model.NewKS(rt.Epoch * 1000)
+	run := func(args ...string) ([]byte, []model.Outcome) {
+		outs := ks.Apply(h.B(args...))
+		raw := h.ReplyBytes(mgr.ExecCommand(bg, h.B(args...), nil)) // NOT copied: this is what conn.Write would get
+		if v, err := model.DecodeOne(raw); err == nil {
+			for _, o := range outs {
+				if n, why := o.Check(v); why == "" {
+					ks = n
+					break
+				}
+			}
+		}
+		return raw, outs
+	}
+	var pay [][2]string
+	for _, l := range []int{1, 2, 3, 4, 8, 31, 32, 33, 100} {
+		pay = append(pay, [2]string{strings.Repeat("a", l), strings.Repeat("b", l)})
+	}
+	n := 0
+	for _, p := range pay {
+		for i, v := range []string{p[0], p[1]} {
+			k := fmt.Sprintf("s%d", i)
+			run("SET", k, v)
+			run("DEL", "l"+k, "h"+k, "t"+k, "z"+k, "x"+k)
+			run("RPUSH", "l"+k, v)
+			run("HSET", "h"+k, v, v)
+			run("SADD", "t"+k, v)
+			run("ZADD", "z"+k, "1", v)
+			run("XADD", "x"+k, "*", v, v)
+		}
+		type held struct {
+			args []string
+			raw  []byte
+			outs []model.Outcome
+		}
+		var batch []held
+		for _, rd := range [][]string{{"GET", "s%d"}, {"LRANGE", "ls%d", "0", "-1"}, {"HGETALL", "hs%d"}, {"SMEMBERS", "ts%d"}, {"ZRANGE", "zs%d", "0", "-1"}, {"XRANGE", "xs%d", "-", "+"}, {"GETRANGE", "s%d", "0", "-1"}, {"HKEYS", "hs%d"}, {"LINDEX", "ls%d", "0"}, {"TYPE", "s%d"}} {
+			for i := 0; i < 2; i++ {
+				args := append([]string{}, rd...)
+				args[1] = fmt.Sprintf(args[1], i)
+				raw, outs := run(args...)
+				batch = append(batch, held{args, raw, outs})
+			}
+		}
+		for _, b := range batch {
+			n++
+			v, err := model.DecodeOne(b.raw)
+			ok := err == nil
+			if ok {
+				ok = false
+				for _, o := range b.outs {
+					if _, why := o.Check(v); why == "" {
+						ok = true
+					}
+				}
+			}
+			if !ok {
+				rep.Add(&ev.Violation{Engine: "seqmc/c03", Kind: "reply-bytes-invalidated", Cmd: strings.ToLower(b.args[0]), Shape: fmt.Sprintf("payload-len=%d", len(p[0])),
+					Detail: fmt.Sprintf("reply of %q read after later replies had been built is %q: reply buffers are shared between commands, so concurrent connections can receive each other's bytes", b.args, b.raw),
+					Replay: map[string]interface{}{"engine": "seqmc", "prop": "C03", "phase": "alias-probe", "args": b.args}})
+			}
+		}
+	}
+	rt.W.Kill()
+	return n, "alias probe: replies of 20 reads on twin keys (payload lengths 1..100) decoded only after the whole batch was produced"
+}
+
 func runC03() int {
 	tier := os.Getenv("VERIF_TIER")
 	if tier != "thorough" {
@@ -247,7 +324,10 @@ func runC03() int {
 		}
 		return nil
 	})
+	aliasN, aliasSample := runAliasProbe(rep)
+	samples = append(samples, aliasSample)
 	tr, _ := cov["transitions"].(int)
+	tr += aliasN
 	mu, _ := cov["mutating_transitions"].(int)
 	ss, _ := cov["samples"].([]string)
 	out := map[string]interface{}{
@@ -261,6 +341,7 @@ func runC03() int {
 		"pipelines":            pipes,
 		"pipeline_runs":        runs,
 		"pipeline_max_len":     plen,
+		"alias_probe_replies":  aliasN,
 		"poisoned_states":      cov["poisoned_states"],
 	}
 	return rep.Finish(out, seqAssumptions)
